@@ -1,5 +1,5 @@
 """C03: decided on the L1 machine (theorem Ivy.Props.C03.monitor_accepts) + T-replay correspondence."""
-from . import l1
+from . import l1, loopgen
 PROP = "C03"
 LEANCHECK_MODULES = ["Ivy.L1.Machine", "Ivy.L1.Exec", "Ivy.Mon.C03", "Ivy.L1.ProofsC03", "Ivy.Props.C03"]
 FAMILIES = ['churn', 'storm']
@@ -9,13 +9,19 @@ RULE = ("scenario families ['churn', 'storm'] (see vlib/loopgen.py) rotating ove
         "replayed through the Lean machine (every library record must be predicted) and through the Lean monitor(s) ['C03']; sanitizer "
         "classes counted as violations of this property: []. non-trivial = a descriptor callback ran and a later wait reported the descriptor again (or not) after its readiness changed; distinct by hash of the log")
 
+RETRACT_RULE = ("; plus the ENUMERATED family 'retract' (264 scenarios per run, not sampled): 4 methods x {descriptor, cross-thread iv_event, iv_event_raw} "
+                "handler dispatched first x 10 manipulations of another source collected in the same iteration (handlers cleared then unregistered, "
+                "freed, recycled, same struct re-registered, bands dropped and re-added) x both arrival orders, and failed registration attempts "
+                "followed by a successful registration of the same, not re-initialised, struct")
+
 
 def nontrivial(log):
     return log.count("CB f") >= 2 and log.count("WRET ev=") >= 2
 
 
 def run(tier, seed, proof):
-    return l1.run_property(PROP, tier, seed, proof, FAMILIES, MONS, SANS, nontrivial, RULE)
+    return l1.run_property(PROP, tier, seed, proof, FAMILIES, MONS, SANS, nontrivial, RULE + RETRACT_RULE,
+                           extra_cases=lambda tier, seed: loopgen.retract_cases(seed))
 
 
 def search(tier, seed, proof):
